@@ -55,6 +55,24 @@ def roots(tier, seed):
                         c = alpha.base_case(n, pats, "in", "quad", "none", options={"nb_points": npt, "maxfev": cap})
                         c["dev"] = [["obj", k, alt]]
                         out.append(c)
+        # undefined (NaN) bound entries mean "no bound on that side": the run is an ordinary one (status -1 is for
+        # lb > ub only)
+        for pats in [("wide",) * n, ("lo",) + ("wide",) * (n - 1)]:
+            for which in ("lb0", "ub_last", "both", "all"):
+                for obj, cons, opts in [("quad", "none", {"maxfev": 40}), ("quad", "ball_le", {"maxfev": 40}),
+                                        ("quad", "lin_le", {"target": 3.0, "maxfev": 40}),
+                                        ("none", "ball_le", {"maxfev": 40}), ("quad", "none", {"maxfev": 2})]:
+                    for bform in ("Bounds", "array"):
+                        c = alpha.base_case(n, pats, "in", obj, cons, bform=bform, options=dict(opts))
+                        if which in ("lb0", "both"):
+                            c["bounds"]["lb"][0] = alpha.NAN
+                        if which in ("ub_last", "both"):
+                            c["bounds"]["ub"][-1] = alpha.NAN
+                        if which == "all":
+                            c["bounds"]["lb"] = [alpha.NAN] * n
+                            c["bounds"]["ub"] = [alpha.NAN] * n
+                        c["tag"]["special"] = "nan-bounds"
+                        out.append(c)
         # targets at or above the barrier value 2^100 that replaces NaN / infinite / huge objective values inside
         # the solver: the replaced value must not count as "target reached"
         for pats in [("free",) * n, ("wide",) * n]:
